@@ -314,27 +314,33 @@ def is_di(x):
     return x.g in DI and not x.is_lig
 
 
+def _t(a):
+    return None if a is None else (a[0], a[1])
+
+
 def expected(sem, B):
-    """-> (buffer after GSUB, {index: (target index, own anchor, target anchor, kind)}) by the OpenType rules:
-    a lookup sees only glyphs its flag does not filter; the attachment point of a mark is the nearest preceding
-    glyph that is not a mark by GDEF (default ignorables do not count); mark-to-mark looks at the glyph right
+    """-> (buffer after GSUB, att, alt).  att = {index: (target index, own anchor, target anchor, kind)} by the OpenType
+    rules: a lookup sees only glyphs its flag does not filter; the attachment point of a mark is the nearest preceding
+    glyph that is not a mark by GDEF (default ignorables do not count; of a MultipleSubst sequence only the first
+    glyph counts unless the subtable's base coverage lists the later one); mark-to-mark looks at the glyph right
     before (marks the lookup filters and default ignorables do not count) and needs it to be a mark of the same
-    ligature component; later lookups override earlier ones, inside a lookup the first subtable that applies wins."""
+    ligature component; later lookups override earlier ones, inside a lookup the first subtable that applies wins.
+    alt = {index: set of OTHER outcomes (None = unattached)} that the shared last-base cache of a MarkToBase lookup
+    with several subtables can produce: there the search may have run under another subtable's base coverage, so the
+    target may be any glyph between the nearest one every subtable admits and the current glyph that SOME subtable
+    admits (finding class markbase-cache-shared-across-subtables); empty for every other lookup."""
     buf = run_gsub(sem, B)
     n = len(buf)
     att = {}
+    poss = {}                     # index -> set of possible final outcomes, once they differ from {att}
     for lk in sem["lookups"]:
         flag, mset, typ = lk["flag"], lk["set"], lk["type"]
-        if typ == 4 and len(lk["subs"]) > 1 and any(
-                later_of_sequence(buf, j) and len({buf[j].g in s["bases"] for s in lk["subs"]}) > 1 for j in range(n)):
-            # the subtables of one MarkToBase lookup share the last-base cache, but whether a later glyph of a
-            # MultipleSubst sequence is a base depends on each subtable's base coverage: the second subtable then
-            # reuses the base found under the first one's coverage (same in HarfBuzz) — reported, not judged
-            return buf, None
+        multi4 = typ == 4 and len(lk["subs"]) > 1
         for i in range(n):
             cur = buf[i]
             if not passes(sem, cur.g, cur.props, flag, mset):
                 continue
+            own = None
             for s in lk["subs"]:
                 res = None
                 if typ == 3:
@@ -345,7 +351,7 @@ def expected(sem, B):
                         j -= 1
                     if j < 0 or buf[j].g not in s["ee"] or s["ee"][buf[j].g][1] is None:
                         continue
-                    res = (j, s["ee"][cur.g][0], s["ee"][buf[j].g][1], "curs")
+                    res = (j, _t(s["ee"][cur.g][0]), _t(s["ee"][buf[j].g][1]), "curs")
                 elif cur.g in s["marks"]:
                     cls, ma = s["marks"][cur.g]
                     if typ in (4, 5):
@@ -386,11 +392,43 @@ def expected(sem, B):
                         ba = s["mark2"][t.g][cls]
                     if ba is None or i - j > CHAIN_MAX:
                         continue
-                    res = (j, ma, ba, "mark")
+                    res = (j, _t(ma), _t(ba), "mark")
                 if res:
-                    att[i] = res
+                    own = res
                     break
-    return buf, att
+            results = {own}
+            if multi4 and any(cur.g in s["marks"] for s in lk["subs"]):
+                # candidate targets under the shared cache: from the current glyph back to the nearest glyph that
+                # every subtable admits, every glyph that some subtable admits; plus "none" when no glyph is admitted
+                # by every subtable
+                cands, j, closed = [], i - 1, False
+                while j >= 0:
+                    x = buf[j]
+                    if not (x.props & MARK or is_di(x)):
+                        if not later_of_sequence(buf, j):
+                            cands.append(j); closed = True; break
+                        adm = [x.g in s["bases"] for s in lk["subs"]]
+                        if any(adm): cands.append(j)
+                        if all(adm): closed = True; break
+                    j -= 1
+                outs = set() if closed else {None}
+                for j in cands:
+                    r = None
+                    for s in lk["subs"]:
+                        if cur.g in s["marks"] and buf[j].g in s["bases"]:
+                            cls, ma = s["marks"][cur.g]
+                            ba = s["bases"][buf[j].g][cls]
+                            if ba is not None and i - j <= CHAIN_MAX:
+                                r = (j, _t(ma), _t(ba), "mark"); break
+                    outs.add(r)
+                results |= outs
+            if len(results) > 1 or i in poss:
+                before = poss.get(i, {att.get(i)})
+                poss[i] = {r if r is not None else o for o in before for r in results}
+            if own:
+                att[i] = own
+    alt = {i: {o for o in v if o != att.get(i)} for i, v in poss.items()}
+    return buf, att, {i: v for i, v in alt.items() if v}
 
 
 # ------------------------------------------------------------------------------------------------
@@ -412,23 +450,42 @@ def parse_out(o):
     return out
 
 
+CLS_CACHE = "markbase-cache-shared-across-subtables"
+CLS_CURS_MARK = "cursive-on-gdef-mark"
+CLS_CURS_REUSE = "cursive-exit-reused"
+CLASS_TEXT = {
+    CLS_CACHE: "the subtables of one MarkToBase lookup share the last-base cache, but whether a later glyph of a MultipleSubst "
+               "sequence is a base depends on each subtable's base coverage: a subtable reuses the base found under "
+               "another subtable's coverage and the mark hangs on a glyph other than the nearest one the applying "
+               "subtable admits (HarfBuzz's c->last_base is shared in the same way; model theorem "
+               "known_C07_base_cache_shared)",
+    CLS_CURS_MARK: "cursive pair whose advance-carrying glyph (exit side; entry side in right-to-left text) is a mark by GDEF: "
+                   "zero_mark_widths_by_gdef zeroes, after the lookup, the advance the lookup computed, so entry and "
+                   "exit anchors do not coincide on the main axis (HarfBuzz zeroes mark advances after GPOS as well)",
+    CLS_CURS_REUSE: "a default ignorable is never the exit side of a cursive pair but may be the entry side: one exit glyph "
+                    "then serves several entries and the later pair overwrites what the earlier one stored on it, the "
+                    "earlier pair's anchors no longer coincide (same iterator rules in HarfBuzz)",
+}
+
+
 def check(sem, text, d, flags, so, s0, stats=None):
-    """so = reply on the font, s0 = reply on the same font without GPOS subtables.  Returns None or a description
-    of the first departure from the expected attachments."""
+    """so = reply on the font, s0 = reply on the same font without GPOS subtables.
+    -> (why, found): why = description of the first departure from the expected attachments that is NOT one of the
+    three upstream-inherited classes (None when there is none); found = [(class, description)] of departures that are:
+    each is decided from the concrete glyph pair — the mark sits exactly on one of the alternative targets the shared
+    cache allows; the failing axis of a cursive pair is the main axis and the glyph carrying the advance is a GDEF
+    mark; the failing cursive pair is not the last one that used its exit glyph."""
     out, out0 = parse_out(so), parse_out(s0)
     if out is None or out0 is None:
-        return f"shape() failed on a target-search font: {so[:80]} / {s0[:80]}"
+        return f"shape() failed on a target-search font: {so[:80]} / {s0[:80]}", []
     B = list(reversed(text)) if d == "b" else list(text)
-    buf, att = expected(sem, B)
-    if att is None:
-        if stats is not None: stats["markbase_subtables_disagree_on_sequence_glyph(not judged)"] += 1
-        return None
+    buf, att, alt = expected(sem, B)
     keep = [k for k in range(len(buf)) if flags & PRESERVE_DI or not is_di(buf[k])]
     vis = list(reversed(keep)) if d == "r" else keep            # output order -> buffer index
     want = [buf[k].g for k in vis]
     if [x[0] for x in out] != want or [x[0] for x in out0] != want:
         return (f"glyph sequence after GSUB differs from the reference ligature model: got {[x[0] for x in out]}, "
-                f"expected {want} (dir {d})")
+                f"expected {want} (dir {d})"), []
     where = {k: o for o, k in enumerate(vis)}
     x = y = 0
     org = []
@@ -439,6 +496,7 @@ def check(sem, text, d, flags, so, s0, stats=None):
         stats["attached"] += len(att)
         if len(buf) < len(B): stats["with_ligature"] += 1
         if any(x.mult for x in buf): stats["with_multiple_subst"] += 1
+        if alt: stats["shared_cache_alternatives_possible"] += 1
         for i, (j, _, _, kind) in att.items():
             if not buf[i].props & MARK: stats["attached_non_mark"] += 1
             if kind == "mark" and any(not (buf[k].props & MARK) for k in range(j + 1, i)): stats["default_ignorable_between"] += 1
@@ -448,46 +506,115 @@ def check(sem, text, d, flags, so, s0, stats=None):
     for k in sorted(att):
         if att[k][3] == "curs": last_user[att[k][0]] = k
     horiz = d in "lr"
+    found = []
     if not has_curs:
         for o, (a, b) in enumerate(zip(out, out0)):
             if a[1:3] != b[1:3]:
                 return (f"advance of output glyph {o} (glyph {a[0]}) is {a[1:3]} but {b[1:3]} without the attachment "
-                        f"lookups (mark attachment must not change advances), dir {d}")
+                        f"lookups (mark attachment must not change advances), dir {d}"), found
+
+    def holds(k, outcome):
+        """does the output show glyph k in this state (None = unattached; else linked to outcome[0])"""
+        o = where[k]
+        if outcome is None:
+            return out[o][3:5] == out0[o][3:5]
+        j, ma, ba, _ = outcome
+        if j not in where:
+            return True
+        oj = where[j]
+        return (org[o][0] + ma[0], org[o][1] + ma[1]) == (org[oj][0] + ba[0], org[oj][1] + ba[1])
+
     for k in keep:
         o = where[k]
-        if k in att:
+        if k in att and att[k][3] == "curs":
             j, ma, ba, kind = att[k]
-            if j not in where:
+            if j not in where or (is_di(buf[k]) and not flags & PRESERVE_DI):
                 continue
             oj = where[j]
             p, q = (org[o][0] + ma[0], org[o][1] + ma[1]), (org[oj][0] + ba[0], org[oj][1] + ba[1])
-            if kind == "mark" and p != q:
-                return (f"attached anchors do not coincide: buffer index {k} (glyph {buf[k].g}, GDEF props {buf[k].props}) must "
-                        f"hang on index {j} (glyph {buf[j].g}): own anchor at {p}, target anchor at {q}, dir {d}")
-            if kind == "curs":
-                # cross axis always; main axis when the glyphs the lookup skipped in between ended with no advance
-                # (the advance the lookup computes on a glyph that GDEF calls a mark is zeroed afterwards by
-                # zero_mark_widths_by_gdef, as in HarfBuzz: such pairs are counted, their main axis is not judged)
-                if is_di(buf[k]) and not flags & PRESERVE_DI:
-                    continue
-                # a default ignorable is never an exit side but may be an entry side: then the same exit glyph serves
-                # several entries and every later pair overwrites what the earlier one stored on it — judge the last
-                if last_user[j] != k:
-                    if stats is not None: stats["cursive_exit_reused(earlier pair not judged)"] += 1
-                    continue
-                lo, hi = min(o, oj), max(o, oj)
-                zeroed = bool(buf[k].props & MARK or buf[j].props & MARK)
-                if stats is not None and zeroed: stats["cursive_pair_with_gdef_mark(main axis not judged)"] += 1
-                clear = not zeroed and all(out[m][1 if horiz else 2] == 0 for m in range(lo + 1, hi))
-                axes = [1 if horiz else 0] + ([0 if horiz else 1] if clear else [])
-                if stats is not None and not clear: stats["cursive_cross_axis_only"] += 1
-                if any(p[a] != q[a] for a in axes):
-                    return (f"attached anchors do not coincide: cursive pair, entry side buffer index {k} (glyph {buf[k].g}) "
-                            f"entry point {p}, exit side index {j} (glyph {buf[j].g}) exit point {q}, axes checked {axes}, dir {d}")
-        elif not has_curs and out[o][3:5] != out0[o][3:5]:
-            return (f"glyph at buffer index {k} (glyph {buf[k].g}, GDEF props {buf[k].props}) has no attachment target by the "
-                    f"font's rules but its offset is {out[o][3:5]} instead of {out0[o][3:5]}, dir {d}")
-    return None
+            # cross axis always; main axis when the glyphs the lookup skipped in between ended with no advance
+            lo, hi = min(o, oj), max(o, oj)
+            clear = all(out[m][1 if horiz else 2] == 0 for m in range(lo + 1, hi))
+            main, cross = (0, 1) if horiz else (1, 0)
+            if stats is not None and not clear: stats["cursive_cross_axis_only"] += 1
+            bad_cross = p[cross] != q[cross]
+            bad_main = clear and p[main] != q[main]
+            if not (bad_cross or bad_main):
+                continue
+            desc = (f"cursive pair, entry side buffer index {k} (glyph {buf[k].g}, GDEF props {buf[k].props}) entry point {p}, "
+                    f"exit side index {j} (glyph {buf[j].g}, GDEF props {buf[j].props}) exit point {q}, "
+                    f"{'cross' if bad_cross else 'main'} axis, dir {d}")
+            carrier = k if d == "r" else j
+            if last_user[j] != k:
+                found.append((CLS_CURS_REUSE, desc + f"; exit glyph used again by the entry at index {last_user[j]}"))
+            elif bad_main and not bad_cross and buf[carrier].props & MARK:
+                found.append((CLS_CURS_MARK, desc + f"; the advance is carried by index {carrier}, a mark by GDEF"))
+            else:
+                return "attached anchors do not coincide: " + desc, found
+            continue
+        own = att.get(k)
+        if has_curs and own is None:
+            continue
+        if holds(k, own):
+            continue
+        hits = [a for a in alt.get(k, ()) if holds(k, a)]
+        if hits:
+            hit = hits[0]
+            tgt = "no glyph" if own is None else f"index {own[0]} (glyph {buf[own[0]].g})"
+            got = "unattached" if hit is None else f"index {hit[0]} (glyph {buf[hit[0]].g})"
+            found.append((CLS_CACHE, f"buffer index {k} (glyph {buf[k].g}) must hang on {tgt}, the nearest glyph the applying "
+                                     f"subtable admits, but sits on {got}, a target found under another subtable's base coverage, dir {d}"))
+            continue
+        if own is not None:
+            j, ma, ba, _ = own
+            oj = where[j]
+            p, q = (org[o][0] + ma[0], org[o][1] + ma[1]), (org[oj][0] + ba[0], org[oj][1] + ba[1])
+            return (f"attached anchors do not coincide: buffer index {k} (glyph {buf[k].g}, GDEF props {buf[k].props}) must "
+                    f"hang on index {j} (glyph {buf[j].g}): own anchor at {p}, target anchor at {q}, dir {d}"), found
+        return (f"glyph at buffer index {k} (glyph {buf[k].g}, GDEF props {buf[k].props}) has no attachment target by the "
+                f"font's rules but its offset is {out[o][3:5]} instead of {out0[o][3:5]}, dir {d}"), found
+    return None, found
+
+
+# permanent witnesses of the three classes: (recipe, sem, text, dir, flags)
+
+def _wfont(gdef, lookups, gsub=None):
+    rec = {"num_glyphs": NG, "cmap": cmap(), "advances": [0] + [500] * (NG - 1), "gdef": {"classes": dict(gdef)},
+           "gpos": {"features": [{"tag": "mark", "lookups": list(range(len(lookups)))}], "lookups": lookups}}
+    if gsub: rec["gsub"] = gsub
+    return rec
+
+
+def witnesses():
+    w = {}
+    # <11 5>, 11 -> 6 6 (MultipleSubst): subtable 2 (bases {6}) admits the second 6, subtable 1 (bases {1}, never applies) not
+    m1, b1, m2, b2 = {5: (0, (0, 0))}, {1: [(111, 111)]}, {5: (0, (10, 20))}, {6: [(300, 400)]}
+    gd = {1: 1, 6: 1, 5: 3, 11: 1}
+    rec = _wfont(gd, [{"type": 4, "flag": 0, "subtables": [
+        {"mark_coverage": [5], "base_coverage": [1], "class_count": 1, "marks": [m1[5]], "bases": [b1[1]]},
+        {"mark_coverage": [5], "base_coverage": [6], "class_count": 1, "marks": [m2[5]], "bases": [b2[6]]}]}],
+        {"features": [{"tag": "ccmp", "lookups": [0]}],
+         "lookups": [{"type": 2, "flag": 0, "subtables": [{"coverage": [11], "sequences": [[6, 6]]}]}]})
+    sem = {"gdef": gd, "attach": {}, "sets": [], "gsub": {"flag": 0, "ligsets": {}, "mult": {11: [6, 6]}},
+           "lookups": [{"type": 4, "flag": 0, "set": None, "subs": [{"marks": m1, "bases": b1}, {"marks": m2, "bases": b2}]}]}
+    w[CLS_CACHE] = (rec, sem, [11, 5], "l", 0)
+    # <2 1>: the exit side (glyph 2) is a mark by GDEF
+    ee = {1: ((0, 0), (400, 0)), 2: ((0, 0), (250, 0))}
+    gd = {1: 1, 2: 3}
+    rec = _wfont(gd, [{"type": 3, "flag": 0, "subtables": [{"coverage": [1, 2], "entry_exit": [ee[1], ee[2]]}]}])
+    sem = {"gdef": gd, "attach": {}, "sets": [], "gsub": None, "lookups": [{"type": 3, "flag": 0, "set": None, "subs": [{"ee": ee}]}]}
+    w[CLS_CURS_MARK] = (rec, sem, [2, 1], "l", 0)
+    # <1 17 19>: both default ignorables enter on glyph 1 (17 is skipped when 19 looks back), through two subtables
+    # with different exit anchors for glyph 1
+    e1 = {1: ((0, 0), (400, 0)), 17: ((0, 0), None)}
+    e2 = {1: ((0, 0), (250, 0)), 19: ((0, 0), None)}
+    gd = {1: 1, 17: 1, 19: 1}
+    rec = _wfont(gd, [{"type": 3, "flag": 0, "subtables": [{"coverage": [1, 17], "entry_exit": [e1[1], e1[17]]},
+                                                           {"coverage": [1, 19], "entry_exit": [e2[1], e2[19]]}]}])
+    sem = {"gdef": gd, "attach": {}, "sets": [], "gsub": None,
+           "lookups": [{"type": 3, "flag": 0, "set": None, "subs": [{"ee": e1}, {"ee": e2}]}]}
+    w[CLS_CURS_REUSE] = (rec, sem, [1, 17, 19], "l", PRESERVE_DI)
+    return w
 
 
 # ------------------------------------------------------------------------------------------------
